@@ -5,7 +5,7 @@
    Spec side: ConsFacts.fsem — conjunction, disjunction, at-least-k (sign * count >= k; the
    default sign is + for k >= 1), at-most-k, exactly-one, not-exactly-one, material implication,
    negation of the arguments' truth values; Sem.eval — the arithmetic truth function. *)
-Require Import Puan.Base Puan.Plog Puan.Sem Puan.Cons Puan.ConsFacts.
+Require Import Puan.Base Puan.Plog Puan.Sem Puan.Cons Puan.ConsFacts Puan.Cic.
 
 (* for every id generator, every 0/1 environment and every well-formed constructor tree (boolean
    leaves; All's arguments are not merged by its set(): true whenever sibling ids are distinct) *)
@@ -34,6 +34,17 @@ Proof.
   - assert ((0 <? k) = true) as -> by lia. replace (1 * zsum (map (fsem env) l)) with (zsum (map (fsem env) l)) by lia. reflexivity.
 Qed.
 Print Assumptions C04_spec.
+
+(* the rule-dictionary constructor Imply.from_cicJE: the document is translated (Cic.form_of_cic:
+   ruleType REQUIRES_ALL / REQUIRES_ANY / ONE_OR_NONE / FORBIDS_ALL / REQUIRES_EXCLUSIVELY for the
+   consequence; sub-conditions combined by the outer relation; a single sub-condition is used as
+   is; no sub-condition => just the consequence) and evaluates like that formula *)
+Theorem C04_rule_dictionary :
+  forall (genid : genid_t) (env : ident -> Z),
+    (forall i, env i = 0 \/ env i = 1) ->
+    forall d : cic, wf genid (form_of_cic d) -> eval env (from_cic genid d) = fsem env (form_of_cic d).
+Proof. intros genid env Hb d Hw. exact (proj1 (build_sem genid env Hb (form_of_cic d) Hw)). Qed.
+Print Assumptions C04_rule_dictionary.
 
 (* Non-vacuity: Imply(All(x, Any(a,b)), y) — the witness of defect D1 (a tautology before the
    fix) — is well formed for the constant id generator and evaluates like x∧(a∨b) → y. *)
